@@ -242,9 +242,18 @@ pub fn gen_conv(r: &mut Rng, o: &ConvOpts) -> Vec<Cmd> {
             },
             2 => {
                 let nn = r.usize_below(14);
+                let mut name = blob_utf8(r, nn).to_vec();
+                if r.chance(1, 6) {
+                    // a NUL inside or behind the name is part of the name (COM_INIT_DB carries the
+                    // rest of the packet, not a C string)
+                    let at = r.usize_below(name.len() + 1);
+                    // never split a multi-byte character (continuation bytes are 10xxxxxx)
+                    let at = (0..=at).rev().find(|i| *i == name.len() || name[*i] & 0xC0 != 0x80).unwrap_or(0);
+                    name.insert(at, 0);
+                }
                 Cmd {
                     seq,
-                    kind: CmdKind::InitDb(blob_utf8(r, nn)),
+                    kind: CmdKind::InitDb(Blob::Lit(name)),
                     act: gen_init_act(r, o.init_errors),
                 }
             }
@@ -278,9 +287,20 @@ pub fn gen_conv(r: &mut Rng, o: &ConvOpts) -> Vec<Cmd> {
             },
             5 => {
                 let nn = r.usize_below(20);
+                let payload = if r.coin() {
+                    // table name, NUL, field wildcard (mysql_list_fields(conn, table, wild))
+                    let t = *r.pick(&["t", "orders", "", "db.t"]);
+                    let w = *r.pick(&["", "%", "id%", "not%", "x", "_", "%\\_%", "not implemented", "id"]);
+                    let mut v = t.as_bytes().to_vec();
+                    v.push(0);
+                    v.extend_from_slice(w.as_bytes());
+                    Blob::Lit(v)
+                } else {
+                    blob_bytes(r, nn)
+                };
                 Cmd {
                     seq,
-                    kind: CmdKind::FieldList(blob_bytes(r, nn)),
+                    kind: CmdKind::FieldList(payload),
                     act: Act::None,
                 }
             }
